@@ -72,7 +72,8 @@ def on_tick(h: Any, tick: Any, adapter: Any) -> None:
     rec = h.scheduled_due.get(id(tick))
     if rec is None or rec[1] is not tick or h.spec.time_depth != 1 or h.spec.pair_time:
         return
-    late = _t.time() - rec[0]
+    # a tick that kept the loop busy past the due time (busy_ticks programs) excuses exactly that much
+    late = _t.time() - max(rec[0], getattr(h, "busy_until", 0.0))
     if late > 1e-6 and isinstance(tick, TickAddEvent):
         h.violate("scheduled_retry_delivered_late", {"step_kind": kind(tick.step_name or "")},
                   f"retry of {tick.step_name} was due at +{rec[0] - h.loop.base_wall:.3f}s but was delivered {late:.3f}s later: "
@@ -83,7 +84,20 @@ def observe(h: Any, e: Any, state: dict[str, Any]) -> Any:
     return {"idle_announcements": getattr(h, "idle_announcements", 0)}
 
 
-ORACLE = Oracle(on_quiescent=on_quiescent, on_publish=on_publish, on_tick=on_tick, observe=observe)
+def final(h: Any, e: Any, state: dict[str, Any]) -> None:
+    """nothing is enabled any more (no gate, no timer, no client action), the run is still live, and a wake-up the run
+    scheduled for itself was never delivered: the retry / timeout it stands for can never happen"""
+    if not e.stuck or not h.runners or h.run_done():
+        return
+    r = h.runners[-1]
+    if r.scheduled_wakeups and r.state.is_running:
+        kinds = sorted({type(t).__name__ for _, _, t in r.scheduled_wakeups})
+        h.violate("scheduled_wakeup_never_delivered", {"wakeups": kinds, "after_busy_tick": bool(getattr(h, "busy_until", 0.0))},
+                  f"the run is live and quiescent for ever with wake-ups {kinds} still scheduled (due "
+                  f"{[round(at - h.loop.base_wall, 3) for at, _, _ in r.scheduled_wakeups]}, now +{h.loop.vt:.3f}s); trace {h.trace[-12:]}")
+
+
+ORACLE = Oracle(on_quiescent=on_quiescent, on_publish=on_publish, on_tick=on_tick, final=final, observe=observe)
 
 
 def wf_return_then_idle() -> type:
@@ -124,13 +138,23 @@ def specs(tier: str) -> list[Spec]:
     sp = [s for s in catalog(tier)]
     sp.append(Spec("return_then_idle", {}, wf_return_then_idle, tags=("idle",)))
     sp.append(Spec("retry_unhandled", {}, wf_retry_unhandled, scripts=_unh_script, tags=("idle", "retry")))
+    # the loop is kept busy (slow tick) until after the next wake-up it has scheduled for itself
+    from dataclasses import replace
+
+    q = tier == "quick"
+    for s in list(sp):
+        if s.name in ("fan_retry(k=2,w=1,delay)", "fan_retry(k=2,w=2,delay)", "wait_timeout(w=2)", "retry_unhandled",
+                      "fan_retry_stagger_timeout(k=2,w=2)") or (not q and "delay" in s.tags and not s.resume):
+            sp.append(replace(s, name=s.name + "/busy_tick", busy_ticks=1, params={**s.params, "busy_ticks": 1},
+                              max_dev=(s.max_dev if s.max_dev is not None else (3 if q else 5))))
     return sp
 
 
 RULE = ("all schedules (gate releases, external sends, timer firings) of the engine catalog plus idle-specific "
         "programs; at the instant an idle announcement is written to the stream the runner's queues, in-progress "
         "sets, pending-retry heap, tick buffer and mailbox are inspected; work conservation is checked in every "
-        "quiescent live state; every retry wake-up is delivered at the virtual instant it was scheduled for; non-trivial = at least one deviation from the default schedule")
+        "quiescent live state; every retry wake-up is delivered at the virtual instant it was scheduled for (or, in the busy_tick programs where one tick keeps "
+        "the loop busy past the next scheduled wake-up, as soon as the loop is free again) and no live run ends up quiescent with an undelivered wake-up; non-trivial = at least one deviation from the default schedule")
 
 
 def programs(tier: str) -> list[Any]:
